@@ -537,9 +537,10 @@ func quantifyNode(n Node, q any) Node {
 		low, up := rep.p, rep.q
 
 		// An invalid range has been reported as an error and the result is going to be discarded.
-		// Its lower bound can be arbitrarily large: the operand is not repeated more often than the upper bound says.
+		// Its bounds can be arbitrarily large: the operand is not repeated at all.
 		if up != nil && low > *up {
-			low = *up
+			node = n
+			break
 		}
 
 		concat := new(Concat)
